@@ -634,7 +634,7 @@ pub fn run(ctx: &Ctx) {
     ctx.subspace("pairwise: every option pair x 16 presence combinations", pairs.len() as u64, true);
 
     // (3) proptest full combinations
-    let nfull: u32 = ctx.tier.pick(4_000, 100_000);
+    let nfull: u32 = ctx.tier.pick(40_000, 400_000);
     ctx.proptest("pt-merge", nfull, case_strategy, |c| {
         let v = check_merge(ctx, c);
         if ctx.wants_sample("full-combination") {
@@ -646,7 +646,7 @@ pub fn run(ctx: &Ctx) {
     ctx.subspace("proptest: random full combinations over all options", nfull as u64, false);
 
     // (4) round trip
-    let nrt: u32 = ctx.tier.pick(3_000, 60_000);
+    let nrt: u32 = ctx.tier.pick(30_000, 300_000);
     ctx.proptest("pt-roundtrip", nrt, case_strategy, |c| check_roundtrip(ctx, &RtCase { presence: c.presence.clone(), variant: c.variant.clone() }));
     ctx.subspace("proptest: round trip of random effective configurations through the file form", nrt as u64, false);
     // round trip of per-option cases
@@ -679,7 +679,7 @@ pub fn run(ctx: &Ctx) {
         ctx.report(v);
     });
     ctx.subspace("netmask: 5 addresses x (omitted + every prefix 0..=40) + malformed strings", texts.len() as u64, true);
-    let nnm: u32 = ctx.tier.pick(5_000, 100_000);
+    let nnm: u32 = ctx.tier.pick(50_000, 500_000);
     ctx.proptest(
         "pt-netmask",
         nnm,
